@@ -325,8 +325,17 @@ def monitorHist (sc : HScn) (entries : List String) : List (String × String) :=
       let needs := n2
       let inbuf := n3
       -- the system is settled: a stop request must have been honoured unless the loop is inside a pause
-      if m.stopAsked && m.started.isSome && !m.paused && !m.expectPause && m.shutdownAt.isNone then
+      -- (a pause lasts PauseTime: a sample at or after its end is outside it whether or not a resume was reported)
+      let inPause := m.paused && (match m.pauseAt with | some p => decide (t < p + sc.c.pause) | none => false)
+      let blocked := m.calls.any fun c => c.res.isNone && !c.hooked && c.freeAt < t
+      if m.stopAsked && m.started.isSome && !inPause && !m.expectPause && m.shutdownAt.isNone then
         m := m.add "C16" "stop-requested-but-not-shut-down"
+        if blocked then m := m.add "C15" "blocked-enqueue-not-released:the-batcher-never-shut-down"
+      -- C15: an Enqueue blocked on the full buffer returns when the Batcher shuts down (v1: finding F3, it panics)
+      if sc.c.gen == .v2 && blocked && (match m.shutdownAt with | some sd => decide (sd < t) | none => false) then
+        m := m.add "C15" "blocked-enqueue-still-waiting-after-shutdown" |>.add "C16" "enqueue-blocks-after-shutdown"
+      -- C13: the pause ends after PauseTime
+      if m.paused && !inPause && !m.stopAsked && m.shutdownAt.isNone then m := m.add "C13" "no-resume-after-pausetime"
       -- the system is settled: an effective Pause() must have raised its pause event by now
       if m.expectPause && !m.stopAsked && m.shutdownAt.isNone then
         m := { m with expectPause := false }
@@ -357,6 +366,9 @@ def monitorHist (sc : HScn) (entries : List String) : List (String × String) :=
           if infl > sc.c.mcb then m := m.add "C10" "inflight-above-limit"
           if inprog > sc.c.mcb then m := m.add "C10" "more-batches-in-progress-than-limit"
           if infl != inprog then m := m.add "C10" "inflight-differs-from-batches-in-progress"
+          -- C11: at the write-off the slot is freed too (also for a batch whose operations cost nothing)
+          let writtenOff := (m.batches.filter fun b => batchFinished sc b t && (match b.cbRet with | some r => decide (r > t) | none => true)).size
+          if infl > inprog && writtenOff > 0 then m := m.add "C11" "write-off-time:slot-still-held-after-the-limit"
         -- C03 / C11: demand = cost of everything accepted (or blocked / parked inside Enqueue) whose batch has not finished
         if !m.stale && (!m.auditFail || m.auditInFlight || m.auditFailHealthy) then
           let outstanding := (m.calls.filter fun c =>
